@@ -41,7 +41,7 @@ let rec p_expr () : expr =
   | "A" -> let a = p_expr () in let b = p_expr () in EAnd (a, b)
   | "O" -> let a = p_expr () in let b = p_expr () in EOr (a, b)
   | "I" -> let c = p_expr () in let a = p_expr () in let b = p_expr () in ECond (c, a, b)
-  | "K" -> let n = int_of_string (next ()) in
+  | ("K" | "Kp") as ktok -> let n = int_of_string (next ()) in
            let f = p_expr () in
            let rec go i = if i = 0 then [] else let a = p_arg () in a :: go (i - 1) in
            let args = go n in
@@ -52,7 +52,7 @@ let rec p_expr () : expr =
            let shape = "call/" ^ String.concat "," (List.map fst ordered) in
            let plain = List.for_all (fun (k, _) -> k = "p" || (String.length k > 1 && k.[0] = 'k')) ordered in
            (match f with
-            | EOp (OGetAttr m, [obj]) when plain -> EMCall (m, olog shape, obj, List.map snd ordered)
+            | EOp (OGetAttr m, [obj]) when plain && ktok = "K" -> EMCall (m, olog shape, obj, List.map snd ordered)
             | _ -> EOp (olog shape, f :: List.map snd ordered))
   | "D" -> let kind = next () in let n = int_of_string (next ()) in
            let rec go i = if i = 0 then [] else let a = p_arg () in a :: go (i - 1) in
